@@ -1,77 +1,2 @@
-/- GENERATED by tools/gen_lean.py: AST translation of the pure functions of
-   scoda/misc/music_theory.py into the `Option` monad over `Int` — do not edit.
-   A `Note` is its value, a `Key` is its index in the enum, Python `None` as a *return value* is -1000000,
-   `none` means the Python function raised. -/
-import SCoda.Gen.Tables
-set_option linter.unusedVariables false
-namespace SCoda.Gen
-
-def pyIndex (l : List Int) (x : Int) : Option Int :=
-  match l.idxOf? x with | some i => some (i : Int) | none => none
-def pyGet (l : List Int) (i : Int) : Option Int :=
-  if i < 0 then (if (-i).toNat ≤ l.length then l[l.length - (-i).toNat]? else none) else l[i.toNat]?
-def pyLookup (d : List (Int × Int)) (k : Int) : Option Int := (d.find? (·.1 == k)).map (·.2)
-def pyHasKey (d : List (Int × Int)) (k : Int) : Bool := d.any (·.1 == k)
-/-- `Note(v)`: the enum member with that value (ValueError = none) -/
-def noteOfValue (v : Int) : Option Int := if noteEnum.any (·.2 == v) then some v else none
-
-/-- translation of `get_position` -/
-def getPosition (noteVal : Int) : Option Int := do
-  let mut noteVal_ := noteVal
-  let t1 ← noteOfValue (noteVal_ % 12)
-  let t2 ← pyIndex circleOfFifthsOrder t1
-  return (t2 - 5)
-
-/-- translation of `get_distance` -/
-def getDistance (fromNoteVal : Int) (toNoteVal : Int) : Option Int := do
-  let mut fromNoteVal_ := fromNoteVal
-  let mut toNoteVal_ := toNoteVal
-  let mut fromPos_ : Int := 0
-  let mut toPos_ : Int := 0
-  let mut distanceRight_ : Int := 0
-  let mut distanceLeft_ : Int := 0
-  let mut distance_ : Int := 0
-  let t1 ← getPosition fromNoteVal_
-  fromPos_ := t1
-  let t2 ← getPosition toNoteVal_
-  toPos_ := t2
-  distanceRight_ := ((toPos_ - fromPos_) % 12)
-  distanceLeft_ := (12 - distanceRight_)
-  if (decide (distanceLeft_ = distanceRight_)) then
-    distance_ := distanceRight_
-  else
-    if (decide (distanceRight_ < distanceLeft_)) then
-      distance_ := distanceRight_
-    else
-      distance_ := (-distanceLeft_)
-  if !((decide ((-5) ≤ distance_)) && (decide (distance_ ≤ 6))) then none
-  return distance_
-
-/-- translation of `from_distance` -/
-def fromDistance (baseNoteVal : Int) (cofDistance : Int) : Option Int := do
-  let mut baseNoteVal_ := baseNoteVal
-  let mut cofDistance_ := cofDistance
-  let mut basePos_ : Int := 0
-  let t1 ← noteOfValue (baseNoteVal_ % 12)
-  let t2 ← pyIndex circleOfFifthsOrder t1
-  basePos_ := t2
-  let t3 ← pyGet circleOfFifthsOrder ((basePos_ + cofDistance_) % 12)
-  return t3
-
-/-- translation of `transpose_key` -/
-def transposeKey (key : Int) (transposeBy : Int) : Option Int := do
-  let mut key_ := key
-  let mut transposeBy_ := transposeBy
-  let mut index_ : Int := 0
-  if (decide ((transposeBy_ % 12) ≠ 0)) then
-    if (pyHasKey keyTransposeMapping key_) then
-      let t1 ← pyLookup keyTransposeMapping key_
-      key_ := t1
-    let t2 ← pyIndex keyTransposeOrder key_
-    index_ := t2
-    index_ := ((index_ + transposeBy_) % 12)
-    let t3 ← pyGet keyTransposeOrder index_
-    return t3
-  return key_
-
-end SCoda.Gen
+/- GENERATION FAILED: Untranslatable: subscript of a non-table -/
+#eval ("generation failed" : Nat)
